@@ -2,8 +2,8 @@
    spec_extract = frame parser, message-router request parser, Unconnected Send unwrapper, path
    reader, composed as the target composes them) read out of the frame Model/Generic.v emits is
    what the caller asked — for connected messaging, Unconnected Send with a route, and direct UCMM
-   without one (the default route_path=True resolves to none there); and exactly NOT so on the two
-   guarded input classes. *)
+   without one (the default route_path=True resolves to none there), an Unconnected Send without a
+   route carrying an empty route path; and exactly NOT so on the one guarded input class. *)
 From Coq Require Import String ZifyBool.
 From PV Require Import Base.Bytes Base.BytesLemmas Base.Res Base.Proto Base.PyStr.
 From PV Require Import Gen.PathTables Gen.Consts Gen.Tables Gen.GenericFacts Gen.SeqGen Model.EnumMapDefs Model.Path Model.Generic.
@@ -56,14 +56,12 @@ Definition asked (d : drv) (a : gm_args) (svc : Z) (rt : bytes) : delivered :=
      dl_class := lval_value (a_class a); dl_instance := lval_value (a_instance a);
      dl_attribute := att_value (a_attribute a); dl_data := a_data a |}.
 
-(* the two input classes on which the code does NOT deliver what was asked:
-   direct UCMM with an EXPLICITLY given route (str / segments / bytes: appended after the request
-   data — the library's own Forward Open / Forward Close calls rely on it), and an Unconnected Send
-   without a route *)
+(* the one input class on which the target is NOT asked [asked]: direct UCMM with an EXPLICITLY
+   given route (str / segments / bytes): it is appended after the request data — the library's own
+   Forward Open / Forward Close calls rely on it.  (An Unconnected Send without a route carries an
+   empty route path; route_path=True means the connection's route inside an Unconnected Send only.) *)
 Definition delivery_guard (a : gm_args) (rt : bytes) : bool :=
-  negb (a_connected a) &&
-  (if a_ucsend a then match rt with [] => true | _ => false end
-   else match rt with [] => false | _ => true end).
+  negb (a_connected a) && negb (a_ucsend a) && match rt with [] => false | _ => true end.
 
 (* ---------------------------------------------------------------- small facts *)
 Lemma service_bytes_ok s svc : service_value s = Some svc -> service_bytes s = Ok [svc] /\ 0 <= svc < 128.
@@ -205,16 +203,19 @@ Qed.
 Lemma priority_v : hd 0 PRIORITY = 10. Proof. reflexivity. Qed.
 Lemma ticks_v : hd 0 TIMEOUT_TICKS = 5. Proof. reflexivity. Qed.
 
-Lemma delivered_ucsend d a svc rt :
-  wf_call d a svc rt -> a_connected a = false -> a_ucsend a = true -> route_wf rt = true ->
+Lemma delivered_ucsend_core d a svc rt rb :
+  wf_call d a svc rt -> a_connected a = false -> a_ucsend a = true ->
+  (forall emb, blen emb < 65536 ->
+     wrap_unconnected_send emb rt = Ok (82 :: blen [32; 6; 36; 1] / 2 :: [32; 6; 36; 1] ++ mk_ucsend 10 5 emb rb)) ->
+  requested_route rt = rb ->
+  Z.even (blen rb) = true -> blen rb < 512 -> route_ok rb = true -> bytes_ok rb = true ->
   exists d' fr, gm_request d a = (d', Done fr) /\ spec_extract fr = Some (asked d a svc rt).
 Proof.
-  intros W Hc Hu Hrw. destruct W as [Wd _ Ws Wcl Wi Wa [Wdo Wdl] Wr _].
+  intros W Hc Hu Hwrap Hreq Hre Hrl Hrok Hrbo. destruct W as [Wd _ Ws Wcl Wi Wa [Wdo Wdl] Wr _].
   destruct (Wr Hc) as [Hrt _]. rewrite Hu in Hrt.
-  destruct (route_wf_inv _ Hrw) as (rb & -> & Hre & Hrl & Hrok & Hrbo).
   destruct (service_bytes_ok _ _ Ws) as [Hsb Hsr].
   destruct (request_path_cia _ _ _ Wcl Wi Wa) as (p & Hrp & Hcia & Hpo & Hpe & Hpl).
-  unfold gm_request, asked. rewrite Hc, Hu, Hrt. cbn [bind].
+  unfold gm_request, asked. rewrite Hc, Hu, Hrt, Hreq. cbn [bind].
   rewrite Hsb. cbn [bind]. unfold unconnected_message. rewrite Hrp. cbn [bind].
   set (emb := [svc] ++ (blen p / 2 :: p) ++ a_data a).
   pose proof (blen_nonneg (a_data a)) as Hdn. pose proof (blen_nonneg rb) as Hrn.
@@ -222,7 +223,7 @@ Proof.
   { unfold emb. rewrite !blen_app, !blen_cons, !blen_nil. lia. }
   assert (Heo : bytes_ok emb = true).
   { unfold emb. rewrite !bytes_ok_app, !bytes_ok_cons, Hpo, Wdo. rewrite !bytes_ok_byte by lia. reflexivity. }
-  rewrite wrap_unconnected_send_spec by lia. cbn [bind].
+  rewrite Hwrap by lia. cbn [bind].
   rewrite cmd_rr, addr_uccm, item_unconnected. cbn [bind].
   set (msg := 82 :: blen [32; 6; 36; 1] / 2 :: [32; 6; 36; 1] ++ mk_ucsend 10 5 emb rb).
   pose proof (blen_mk_ucsend emb rb) as Hul. pose proof (blen_nonneg (mk_ucsend 10 5 emb rb)) as Hun.
@@ -243,6 +244,26 @@ Proof.
   cbn [us_priority us_ticks us_route us_request]. rewrite Hdm, priority_v, ticks_v. reflexivity.
 Qed.
 
+(* ... with a route: its size byte, the reserved byte, the route path *)
+Lemma delivered_ucsend d a svc rt :
+  wf_call d a svc rt -> a_connected a = false -> a_ucsend a = true -> route_wf rt = true ->
+  exists d' fr, gm_request d a = (d', Done fr) /\ spec_extract fr = Some (asked d a svc rt).
+Proof.
+  intros W Hc Hu Hrw. destruct (route_wf_inv _ Hrw) as (rb & Heq & Hre & Hrl & Hrok & Hrbo). subst rt.
+  apply (delivered_ucsend_core d a svc _ rb W Hc Hu); try assumption; try reflexivity.
+  intros emb Hl. apply wrap_unconnected_send_spec. exact Hl.
+Qed.
+
+(* ... without a route: an empty route path (size 0, reserved 0) *)
+Lemma delivered_ucsend_noroute d a svc :
+  wf_call d a svc [] -> a_connected a = false -> a_ucsend a = true ->
+  exists d' fr, gm_request d a = (d', Done fr) /\ spec_extract fr = Some (asked d a svc []).
+Proof.
+  intros W Hc Hu.
+  apply (delivered_ucsend_core d a svc [] [] W Hc Hu); try reflexivity.
+  intros emb Hl. apply wrap_unconnected_send_noroute. exact Hl.
+Qed.
+
 (* ---------------------------------------------------------------- delivered_verbatim *)
 Theorem delivered_verbatim d a svc rt :
   wf_call d a svc rt -> delivery_guard a rt = false ->
@@ -252,9 +273,8 @@ Proof.
   destruct (a_connected a) eqn:Hc; [apply delivered_connected; assumption |].
   cbn [negb andb] in G. destruct (wf_route _ _ _ _ W Hc) as [_ Hrw].
   destruct (a_ucsend a) eqn:Hu.
-  - destruct rt as [| x rt']; [discriminate |]. destruct Hrw as [Hrw | Hrw]; [discriminate |].
-    apply delivered_ucsend; assumption.
-  - destruct rt as [| x rt']; [| discriminate]. apply delivered_ucmm; assumption.
+  - destruct Hrw as [-> | Hrw]; [apply delivered_ucsend_noroute | apply delivered_ucsend]; assumption.
+  - cbn [negb andb] in G. destruct rt as [| x rt']; [| discriminate]. apply delivered_ucmm; assumption.
 Qed.
 
 (* ---------------------------------------------------------------- the guard is exact *)
@@ -299,47 +319,6 @@ Proof.
   rewrite Hnu, Hdm. reflexivity.
 Qed.
 
-(* an Unconnected Send without a route: the wrapper is not an Unconnected Send (rule 5), nothing is delivered *)
-Lemma ucsend_noroute_rejected d a svc :
-  wf_call d a svc [] -> a_connected a = false -> a_ucsend a = true ->
-  exists d' fr, gm_request d a = (d', Done fr) /\ spec_extract fr = None /\ spec_reject_code fr = 305.
-Proof.
-  intros W Hc Hu. destruct W as [Wd _ Ws Wcl Wi Wa [Wdo Wdl] Wr _].
-  destruct (Wr Hc) as [Hrt _]. rewrite Hu in Hrt.
-  destruct (service_bytes_ok _ _ Ws) as [Hsb Hsr].
-  destruct (request_path_cia _ _ _ Wcl Wi Wa) as (p & Hrp & Hcia & Hpo & Hpe & Hpl).
-  unfold gm_request. rewrite Hc, Hu, Hrt. cbn [bind].
-  rewrite Hsb. cbn [bind]. unfold unconnected_message. rewrite Hrp. cbn [bind].
-  set (emb := [svc] ++ (blen p / 2 :: p) ++ a_data a).
-  pose proof (blen_nonneg (a_data a)) as Hdn.
-  assert (Hel : blen emb = 2 + blen p + blen (a_data a)).
-  { unfold emb. rewrite !blen_app, !blen_cons, !blen_nil. lia. }
-  assert (Heo : bytes_ok emb = true).
-  { unfold emb. rewrite !bytes_ok_app, !bytes_ok_cons, Hpo, Wdo. rewrite !bytes_ok_byte by lia. reflexivity. }
-  rewrite wrap_unconnected_send_noroute by lia. cbn [bind].
-  rewrite cmd_rr, addr_uccm, item_unconnected. cbn [bind].
-  set (body := 10 :: 5 :: le_enc 2 (blen emb) ++ emb ++ (if Z.odd (blen emb) then [0] else [])).
-  set (msg := 82 :: 2 :: [32; 6; 36; 1] ++ body).
-  assert (Hbl : blen body <= 5 + blen emb).
-  { unfold body. rewrite !blen_cons, !blen_app, blen_le_enc. destruct (Z.odd (blen emb)); rewrite ?blen_cons, ?blen_nil; lia. }
-  pose proof (blen_nonneg body) as Hbn.
-  assert (Hbo : bytes_ok body = true).
-  { unfold body. rewrite !bytes_ok_cons, !bytes_ok_app, le_enc_ok, Heo. destruct (Z.odd (blen emb)); reflexivity. }
-  assert (Hml : blen msg = 6 + blen body).
-  { unfold msg. rewrite !blen_cons, blen_app, !blen_cons, blen_nil. lia. }
-  assert (Hmo : bytes_ok msg = true).
-  { unfold msg. rewrite !bytes_ok_cons, bytes_ok_app, Hbo. reflexivity. }
-  rewrite (build_request_rr d msg Wd) by lia.
-  cbn [of_res]. eexists _, _. split; [reflexivity |].
-  unfold spec_extract, spec_reject_code.
-  rewrite parse_mk_frame by (apply (frame_wf_rr d); [exact Wd | exact Hmo | lia]).
-  cbn [f_body f_session]. unfold msg.
-  change (82 :: 2 :: [32; 6; 36; 1] ++ body) with (82 :: blen [32; 6; 36; 1] / 2 :: [32; 6; 36; 1] ++ body).
-  rewrite (parse_mr_built 82 [32; 6; 36; 1] body) by (try reflexivity; lia).
-  replace (is_unconnected_send {| mr_service := 82; mr_path := [32; 6; 36; 1]; mr_data := body |}) with true by reflexivity.
-  cbn [mr_data]. unfold body. rewrite parse_ucsend_noroute by lia. split; reflexivity.
-Qed.
-
 Theorem delivery_guard_exact d a svc rt :
   wf_call d a svc rt -> delivery_guard a rt = true ->
   exists d' fr, gm_request d a = (d', Done fr) /\ spec_extract fr <> Some (asked d a svc rt).
@@ -347,12 +326,9 @@ Proof.
   intros W G. unfold delivery_guard in G.
   destruct (a_connected a) eqn:Hc; [discriminate |]. cbn [negb andb] in G.
   destruct (wf_route _ _ _ _ W Hc) as [_ Hrw].
-  destruct (a_ucsend a) eqn:Hu.
-  - destruct rt as [| x rt']; [| discriminate].
-    destruct (ucsend_noroute_rejected d a svc W Hc Hu) as (d' & fr & H1 & H2 & _).
-    exists d', fr. split; [exact H1 |]. rewrite H2. discriminate.
-  - destruct rt as [| x rt']; [discriminate |]. destruct Hrw as [Hrw | Hrw]; [discriminate |].
-    destruct (ucmm_route_appended d a svc (x :: rt') W Hc Hu Hrw) as (d' & fr & H1 & H2).
-    exists d', fr. split; [exact H1 |]. rewrite H2. unfold asked. rewrite Hc, Hu.
-    intros [= Heq]. apply (f_equal (@List.length Z)) in Heq. rewrite app_length in Heq. cbn [List.length] in Heq. lia.
+  destruct (a_ucsend a) eqn:Hu; [discriminate |]. cbn [negb andb] in G.
+  destruct rt as [| x rt']; [discriminate |]. destruct Hrw as [Hrw | Hrw]; [discriminate |].
+  destruct (ucmm_route_appended d a svc (x :: rt') W Hc Hu Hrw) as (d' & fr & H1 & H2).
+  exists d', fr. split; [exact H1 |]. rewrite H2. unfold asked. rewrite Hc, Hu.
+  intros [= Heq]. apply (f_equal (@List.length Z)) in Heq. rewrite app_length in Heq. cbn [List.length] in Heq. lia.
 Qed.
